@@ -62,3 +62,38 @@ func vH_FP_set(data []byte) {
 		vAssertSetValue(data, &d, "C04.set-value")
 	}
 }
+
+// ---- C04 tier 5d: RoundedInteger (with shouldRoundUp) on its own ------------------------------
+// A normalised decimal with nd symbolic digits, concrete decimal point and truncation flag: the result
+// is the integer nearest to the value with ties to even; with trunc the true value lies strictly
+// above the recorded one (inside the last digit's bracket) and every value there must round to it.
+func vH_FP_round(nd int, dp int, trunc bool) {
+	if trunc && dp >= nd {
+		// a truncated decimal whose last kept digit is worth 1 or more does not determine its integer
+		// rounding; floatBits only rounds decimals with up to 20 integer digits out of 800 kept
+		return
+	}
+	var a decimal
+	vMakeDecimal(&a, nd, dp)
+	a.trunc = trunc
+	before := a
+	n := a.RoundedInteger()
+	vReach("C04.round-done")
+	vAssertRoundedInt(&before, n, "C04.round-nearest-even")
+}
+
+// ---- C04 tier 5e: floatBits over an abstract decimal ---------------------------------------------
+// In the engine vAbsDecimal builds a decimal that denotes the literal exactly and whose Shift and
+// RoundedInteger follow their contracts (engine/gosym/absdec.py); natively it is decimal.set, so a replay
+// runs the real fallback.
+func vH_FP_absbits(data []byte) {
+	var d decimal
+	vAbsDecimal(&d, data)
+	b, ovf := d.floatBits()
+	vReach("C04.absbits-returned")
+	vAssert(ovf == vGlueOverflows(data), "C04.absbits-overflow-flag")
+	if !ovf {
+		vReach("C04.absbits-finite")
+		vAssertGlueValue(data, b, "C04.absbits-value")
+	}
+}
